@@ -27,6 +27,11 @@ type c20Probe struct {
 	Port  int    `json:"port,omitempty"`
 	Burst int    `json:"b"`
 	Sport int    `json:"sport,omitempty"` // fixed source port (0: a fresh one per probe)
+	// Pad: the frame is padded to the Ethernet minimum of 60 bytes behind the IP datagram, as every short
+	// frame on a real wire is (a SYN without options, an empty UDP probe)
+	Pad bool `json:"pad,omitempty"`
+	// Empty: a UDP probe without payload
+	Empty bool `json:"empty,omitempty"`
 }
 
 func genC20(seed uint64, idx int, tier string) *Scenario {
@@ -72,7 +77,7 @@ func genC20(seed uint64, idx int, tier string) *Scenario {
 			}
 			prevPorts = ports
 			for i := 0; i < n; i++ {
-				p := c20Probe{Proto: r.Pick(protos), Burst: b, Sport: fixedSport}
+				p := c20Probe{Proto: r.Pick(protos), Burst: b, Sport: fixedSport, Pad: r.Chance(0.5), Empty: r.Chance(0.4)}
 				if p.Proto != "icmp" {
 					p.Port = ports[r.Intn(nports)] // repeated ports
 				}
@@ -119,6 +124,15 @@ func genC20(seed uint64, idx int, tier string) *Scenario {
 	sc.Params["net"] = nm
 	sc.Config = rawBaseConfig
 	sc.Schedule = r.Schedule(400)
+	if r.Chance(0.35) {
+		// several probes (of several scanners) arrive before the listener gets to run: one step releases 2-5 frames
+		for i := range sc.Schedule {
+			if r.Chance(0.6) {
+				sc.Schedule[i] |= 1<<16 | r.Intn(4)<<17
+			}
+		}
+		class = append(class, "frames-in-batches")
+	}
 	if len(sc.Faults) > 0 {
 		sc.Schedule = nil // strictly: A's probe first, then B
 	}
@@ -194,12 +208,20 @@ func runC20(t *testing.T, sc *Scenario) Result {
 				pkt = ipv4Packet(ip, sensorRaw, 6, uint16(sportCtr), tcpSegment(ip, sensorRaw, sport, uint16(p.Port), uint32(sportCtr)*7919, 0, tcpSYN, 1024, nil, nil))
 				key = fmt.Sprintf("tcp/%d", p.Port)
 			case "udp":
-				pkt = ipv4Packet(ip, sensorRaw, 17, uint16(sportCtr), udpDatagram(ip, sensorRaw, sport, uint16(p.Port), []byte("x")))
+				pl := []byte("x")
+				if p.Empty {
+					pl = nil
+				}
+				pkt = ipv4Packet(ip, sensorRaw, 17, uint16(sportCtr), udpDatagram(ip, sensorRaw, sport, uint16(p.Port), pl))
 				key = fmt.Sprintf("udp/%d", p.Port)
 			default:
 				pkt = ipv4Packet(ip, sensorRaw, 1, uint16(sportCtr), icmpEcho(uint16(sportCtr), 1, []byte("ping")))
 			}
-			sys.Inject(ethFrame(sensorMAC, peerMAC(ip), 0x0800, pkt))
+			fr := ethFrame(sensorMAC, peerMAC(ip), 0x0800, pkt)
+			if p.Pad && len(fr) < 60 {
+				fr = append(fr, make([]byte, 60-len(fr))...)
+			}
+			sys.Inject(fr)
 			// bursts are defined by what really happened on the simulated clock: a gap below 4.5 s keeps a
 			// burst together, a gap above 11 s separates two bursts, anything between is ambiguous
 			now := w.nowMs()
